@@ -52,17 +52,22 @@ ReqVerified == R.hasauth /\ R.expected /\ R.macok
 \* MacSound, request side: expected SPI and algorithm, MAC does not verify over
 \* the datagram as it arrived => no NTP response came out
 TMacSoundReq == Exch => MacSoundReq(R.hasauth /\ R.expected, R.macok, ServedObs)
+\* The client's verdict R.cli is read off the return of its measurement call
+\* (no log record is needed): "accept" = it returned a measurement, "refuse" = the
+\* response was handed to its socket and it returned without one before its
+\* deadline, "other" = anything else.
 \* MacSound, response side: the client (authentication enabled) reports no
 \* measurement on the basis of such a response
 TMacSoundResp == (E2E /\ R.delivered) =>
-   MacSoundResp(R.cauth, R.rhasauth /\ R.rexpected, R.rmacok, R.cli \in {"verified", "unauth"})
+   MacSoundResp(R.cauth, R.rhasauth /\ R.rexpected, R.rmacok, R.cli = "accept")
 \* AuthReplyVerifies: the reply to a verified request carries a response
 \* authenticator that verifies (SPAO computation over the reply as it arrived) ...
 TAuthReply == Exch => \A i \in DOMAIN R.outs :
    NtpRep(O(i)) => AuthReply(ReqVerified, O(i).aspi = "server" /\ O(i).aalgo = "cmac", O(i).auth = "ok")
 \* ... and the requesting client, handed that reply untouched, does not refuse it
-\* and does not treat it as unauthenticated
-TAuthReplyClient == (E2E /\ R.delivered /\ R.cauth /\ ReqVerified /\ R.rm = "pass") => R.cli \notin {"reject", "unauth"}
+\* (that it really checks the authenticator is TMacSoundResp's half: the same
+\* client turns the reply down once a covered bit is changed)
+TAuthReplyClient == (E2E /\ R.delivered /\ R.cauth /\ ReqVerified /\ R.rm = "pass") => R.cli # "refuse"
 \* ReplyAddressing
 TReplyAddressing == Exch => \A i \in DOMAIN R.outs :
    IsReply(O(i)) => (ReplyAddr(Q, O(i).to, O(i)) /\ O(i).raw_ok /\ EchoIntact(Q, O(i)))
@@ -113,9 +118,15 @@ SResp == (E2E /\ R.delivered /\ PredictAuthd(R.mode, D)) =>
    /\ R.rexpected = ExpectedResp(RM)
    /\ R.rexpected => (R.rmacok = MacOK(RM, <<"k0">>))
 SClient == E2E => IF R.delivered
-                  THEN R.cli = (IF R.cauth /\ R.rhasauth /\ R.rexpected
-                                THEN (IF R.rmacok THEN "verified" ELSE "reject") ELSE "unauth")
+                  THEN R.cli = (IF R.cauth /\ R.rhasauth /\ R.rexpected /\ ~R.rmacok THEN "refuse" ELSE "accept")
                   ELSE R.cli = "other"
+\* optional: where log records of the client with the names known today were seen,
+\* they tell the verdict ScionAuth.tla predicts (authenticated / not / rejected)
+SClientLog == (E2E /\ R.clilog # "") =>
+                  IF R.delivered
+                  THEN R.clilog = (IF R.cauth /\ R.rhasauth /\ R.rexpected
+                                   THEN (IF R.rmacok THEN "verified" ELSE "reject") ELSE "unauth")
+                  ELSE R.clilog = "other"
 SNoStray == l > 0 => R.k # "stray"
 \* key-regime sequences: the step's outcome and the key daemon's view are what the
 \* behaviour of ScionAuth.tla (cache per client ISD-AS, revalidation) says
@@ -131,13 +142,14 @@ SKey == (l > 0 /\ R.k = "key" /\ R.sn = 1) =>
 \* monitor's (mon) resp. the strict mode's (strict)
 MonNames == {"TMacSoundReq", "TMacSoundResp", "TAuthReply", "TAuthReplyClient", "TReplyAddressing", "TForwardRule",
              "TNoStrayToEh"}
-StrictNames == {"SOne", "SGroundTruth", "SAct", "SReply", "SResp", "SClient", "SNoStray", "SKey"}
+StrictNames == {"SOne", "SGroundTruth", "SAct", "SReply", "SResp", "SClient", "SClientLog", "SNoStray", "SKey"}
 Holds(n) == CASE n = "TMacSoundReq" -> TMacSoundReq [] n = "TMacSoundResp" -> TMacSoundResp
               [] n = "TAuthReply" -> TAuthReply [] n = "TAuthReplyClient" -> TAuthReplyClient
               [] n = "TReplyAddressing" -> TReplyAddressing [] n = "TForwardRule" -> TForwardRule
               [] n = "TNoStrayToEh" -> TNoStrayToEh
               [] n = "SOne" -> SOne [] n = "SGroundTruth" -> SGroundTruth [] n = "SAct" -> SAct
               [] n = "SReply" -> SReply [] n = "SResp" -> SResp [] n = "SClient" -> SClient
+              [] n = "SClientLog" -> SClientLog
               [] n = "SNoStray" -> SNoStray [] n = "SKey" -> SKey
 Report == LET m == {n \in MonNames : ~Holds(n)}
               d == {n \in StrictNames : ~Holds(n)}
